@@ -860,6 +860,33 @@ def _run_task(task):
             if off != np_ or not (e2 < 1e-9):
                 viol('compose', f'CircuitGate differs from the product of its '
                      f'operations by {e2:.3g}', rep)
+        # ---- VariableLocationGate = relocation: with one location selected
+        # (softmax one-hot) the gate is the inner gate placed on that location
+        if spec[0] == 'vlg':
+            gin = build(spec[1])
+            na = gin.num_params
+            nl = np_ - na
+            k = int(np.argmax(vals[na:])) if nl else 0
+            sel = list(vals[:na]) + [60.0 if i == k else 0.0 for i in range(nl)]
+            try:
+                Us = np.asarray(g.get_unitary(sel).numpy)
+                R = place(np.asarray(gin.get_unitary(list(vals[:na])).numpy), gin.radixes,
+                          tuple(spec[2][k]), rad)
+                cnt('compose')
+                e2 = float(np.abs(R - Us).max())
+                if not (e2 < 1e-8):
+                    viol('compose', 'with location %r selected the gate differs from the '
+                         'inner gate placed there by %.3g' % (tuple(spec[2][k]), e2),
+                         dict(rep, params=sel))
+                U2s = np.asarray(g.get_unitary_and_grad(sel)[0].numpy)
+                if float(np.abs(R - U2s).max()) > 1e-8:
+                    viol('ug-unitary', 'with location %r selected get_unitary_and_grad()[0] '
+                         'is not the inner gate placed there' % (tuple(spec[2][k]),),
+                         dict(rep, params=sel))
+            except Exception as e:
+                if declared_diff is not False:
+                    viol('ug-raises-' + type(e).__name__,
+                         f'relocation check raised {type(e).__name__}: {e}', rep)
         # ---- gradient
         G = None
         try:
